@@ -1320,7 +1320,7 @@ func ruleC03R10(r *Run) {
 				for _, a := range p.alternatives([]ssa.Value{bo.Y, bo.X}[si], 0) {
 					e := p.expr(a.Val)
 					if _, isC := p.resolve(a.Val).(*ssa.Const); isC {
-						if e != "9223372036854775807" {
+						if e != "9223372036854775807" && e != "2147483647" { // math.MaxInt of the target
 							limitOK = false
 						}
 					} else if e != "$g.maxLen" {
